@@ -1,9 +1,88 @@
 import AioModel.Wire
-/-! Driver commands of property C06 (stub until the model exists). -/
+import AioModel.C06Http
+/-! Driver commands of property C06: `run <cfg> <op>…` replays a whole history on the model
+and prints the observable state after every op. -/
 namespace Aio.Driver.C06
-open Aio Aio.Wire
+open Aio Aio.Wire Aio.C06
+
+def showExc : Exc → String
+  | .http => "http" | .disconnected => "disconnected" | .os => "os" | .payload => "payload"
+  | .connClosed => "connclosed" | .reset => "reset" | .timeout => "timeout" | .cancelled => "cancelled"
+  | .dirty => "dirty" | .runtime => "runtime"
+
+def showPhase : Phase → String
+  | .waitHead => "wait" | .gotHead => "head" | .reading => "reading" | .done => "done" | .failed => "failed"
+
+def showOpt : Option Nat → String
+  | none => "-"
+  | some n => toString n
+
+def showExch (e : Exch) : String :=
+  let used := if e.used.isEmpty then "-" else ".".intercalate (e.used.map toString)
+  let res := match e.phase with
+    | .done => "ok:" ++ showHex e.body
+    | .failed => "err:" ++ (match e.err with | some x => showExc x | none => "?")
+    | _ => "-"
+  let head := if e.phase = .gotHead ∨ e.phase = .reading ∨ e.phase = .done then s!"{e.code}:{showHex e.mark}" else "-"
+  s!"{showPhase e.phase},{showOpt e.conn},{used},{head},{res}"
+
+def showConn (w : World httpParser) (cn : Conn httpParser) : String :=
+  let reusable := cn.reusable w.now w.cfg.keepalive false
+  -- an expired pooled connection is as good as closed (the cleanup timer closes it at some point)
+  let connected := cn.connected && !(cn.pooled.isSome && !reusable)
+  s!"{showBool connected}{showBool reusable}{showOpt cn.owner}"
+
+def showWorld (w : World httpParser) : String :=
+  "E[" ++ ";".intercalate (w.exchs.map showExch) ++ "] C[" ++ ";".intercalate (w.conns.map (showConn w)) ++ "]"
+
+def allTag (j : Nat) (l : List Tag) : Bool := l.all (fun t => t == some j)
+
+/-- ghost verdicts: exchanges whose delivered head/body has foreign provenance -/
+def showGhost (w : World httpParser) : String :=
+  let bad := (List.range w.exchs.length).filter (fun j =>
+    match w.exchs[j]? with
+    | some e => !(allTag j e.headProv && allTag j e.bodyProv)
+    | none => false)
+  "G[" ++ ",".intercalate (bad.map toString) ++ "]"
+
+def parseKey (s : String) : Option Key :=
+  match s.splitOn "." with
+  | [a, b, c, d, e, f, g] => do
+    pure { host := ← a.toNat?, port := ← b.toNat?, isSsl := parseBool c, ssl := ← d.toNat?,
+           proxy := ← e.toNat?, proxyHdr := ← f.toNat?, sni := ← g.toNat? }
+  | _ => none
+
+def parseOp (s : String) : Option Op :=
+  match s.splitOn "|" with
+  | ["Q", k, skip, early] => do pure (.request (← parseKey k) (parseBool skip) (← parseHex early))
+  | ["R", c, d] => do pure (.recv (← c.toNat?) (← parseHex d))
+  | ["X", c, os] => do pure (.peerClose (← c.toNat?) (parseBool os))
+  | ["D", j] => do pure (.read (← j.toNat?))
+  | ["L", j] => do pure (.release (← j.toNat?))
+  | ["C", j] => do pure (.close (← j.toNat?))
+  | ["K", j] => do pure (.cancel (← j.toNat?))
+  | ["A", d] => do pure (.advance (← d.toNat?))
+  | _ => none
+
+def parseCfg (s : String) : Option Cfg :=
+  match s.splitOn "," with
+  | [a, b, c, d] => do
+    pure { forceClose := parseBool a, keepalive := ← b.toNat?, total := ← c.toNat?, fix := parseBool d }
+  | _ => none
+
+def runShow (w : World httpParser) : List Op → List String → World httpParser × List String
+  | [], acc => (w, acc.reverse)
+  | op :: ops, acc =>
+    let w := w.step op
+    runShow w ops (showWorld w :: acc)
 
 def handle : List String → String
+  | "run" :: cfg :: ops =>
+    match parseCfg cfg, ops.mapM parseOp with
+    | some cfg, some ops =>
+      let (w, outs) := runShow { cfg := cfg } ops []
+      " | ".intercalate (outs ++ [showGhost w])
+    | _, _ => "bad-op"
   | _ => "bad-op"
 
 end Aio.Driver.C06
